@@ -39,14 +39,19 @@ Proof.
 Qed.
 
 Lemma config_sources_agree : forall k z,
-  (k = CStatus -> z <= 65535) -> effective File k z = effective Env k z.
+  (k = CStatus -> z <= 65535) -> (k = CWorkers -> z <= 9223372036854775807) ->
+  effective File k z = effective Env k z.
 Proof.
-  intros k z Hs. unfold effective, load.
+  intros k z Hs Hw. unfold effective, load.
   destruct k; cbn [type_max]; try reflexivity.
-  specialize (Hs eq_refl).
-  destruct (0 <=? z) eqn:E0; cbn [andb]; [|reflexivity].
-  assert ((z <=? 9223372036854775807) = true) as -> by lia.
-  assert ((z <=? 65535) = true) as -> by lia. reflexivity.
+  - specialize (Hs eq_refl).
+    destruct (0 <=? z) eqn:E0; cbn [andb]; [|reflexivity].
+    assert ((z <=? 9223372036854775807) = true) as -> by lia.
+    assert ((z <=? 65535) = true) as -> by lia. reflexivity.
+  - specialize (Hw eq_refl).
+    destruct (0 <=? z) eqn:E0; cbn [andb]; [|reflexivity].
+    assert ((z <=? 9223372036854775807) = true) as -> by lia.
+    assert ((z <=? 18446744073709551615) = true) as -> by lia. reflexivity.
 Qed.
 
 (* ---- the whole-configuration validator ---- *)
